@@ -36,15 +36,27 @@ class SimError(Exception):
 
 
 class Tracked(object):
-    """Proxy for a shared array written inside a prange body."""
+    """Proxy for a shared array written inside a prange body, or for a view of one.
 
-    __slots__ = ("name", "arr", "sim", "flat_index", "__weakref__")
+    `arr` is the numpy array (or view) and `cellmap` an integer array of the same shape holding, for every
+    element, its flat cell number in the base array: accesses through views (`row = work[i]; row[j] = v`)
+    are attributed to the cells of the base array.  Indexing that yields a scalar is a load; indexing that
+    yields an array yields another proxy (creating a view is not an access).  Using a proxy as a whole-array
+    operand (numpy functions, arithmetic) loads all its cells and works on a copy.
+    """
 
-    def __init__(self, name, arr, sim):
+    __slots__ = ("name", "arr", "sim", "cellmap", "__weakref__")
+
+    def __init__(self, name, arr, sim, cellmap=None):
         self.name = name
         self.arr = arr
         self.sim = sim
-        self.flat_index = None
+        self.cellmap = cellmap
+
+    def _map(self):
+        if self.cellmap is None:
+            self.cellmap = np.arange(self.arr.size).reshape(self.arr.shape)
+        return self.cellmap
 
     # array-like surface used by kernel bodies
     @property
@@ -63,53 +75,116 @@ class Tracked(object):
     def size(self):
         return self.arr.size
 
+    @property
+    def T(self):
+        return Tracked(self.name, self.arr.T, self.sim, self._map().T)
+
     def __len__(self):
         return len(self.arr)
 
     def cells(self, idx):
-        """Flat cell numbers addressed by idx (tuple of ints for a scalar access)."""
-        a = self.arr
-        try:
-            if a.ndim == 1 and not isinstance(idx, (tuple, slice, np.ndarray, list)):
-                i = int(idx)
-                if i < 0:
-                    i += a.shape[0]
-                return (i,)
-            if isinstance(idx, tuple) and len(idx) == a.ndim and all(
-                not isinstance(j, (slice, np.ndarray, list, type(None), type(Ellipsis))) for j in idx
-            ):
-                flat = 0
-                for j, n in zip(idx, a.shape):
-                    j = int(j)
-                    if j < 0:
-                        j += n
-                    flat = flat * n + j
-                return (flat,)
-        except TypeError:
-            pass
-        if self.flat_index is None:
-            self.flat_index = np.arange(a.size).reshape(a.shape)
-        return tuple(int(c) for c in np.asarray(self.flat_index[idx]).ravel())
+        """Base-array cell numbers addressed by idx."""
+        c = self._map()[idx]
+        if isinstance(c, np.ndarray):
+            return tuple(int(x) for x in c.ravel())
+        return (int(c),)
+
+    def _all_cells(self):
+        return tuple(int(x) for x in self._map().ravel())
 
     def __getitem__(self, idx):
-        cells = self.cells(idx)
-        self.sim.access(self, cells, "load")
+        if isinstance(idx, Tracked):
+            idx = np.asarray(idx)
         v = self.arr[idx]
         if isinstance(v, np.ndarray):
-            v = v.copy()
-            v.flags.writeable = False
-        return v
+            sub = self._map()[idx]
+            if v.base is None and v.size and not np.shares_memory(v, self.arr):
+                # fancy indexing copies: that is a load of the selected cells
+                self.sim.access(self, tuple(int(x) for x in np.asarray(sub).ravel()), "load")
+                v = v.copy()
+                v.flags.writeable = False
+                return v
+            return Tracked(self.name, v, self.sim, sub)
+        self.sim.access(self, self.cells(idx), "load")
+        return self.arr[idx]
 
     def __setitem__(self, idx, value):
+        if isinstance(idx, Tracked):
+            idx = np.asarray(idx)
         cells = self.cells(idx)
         self.sim.access(self, cells, "store")
         if isinstance(value, Tracked):
-            value = value.arr
+            value = np.asarray(value)
         self.arr[idx] = value
         self.sim.access(self, cells, "store_done")
 
     def __array__(self, dtype=None, copy=None):
-        raise SimError("tracked array %r used as a whole-array operand inside a prange body" % self.name)
+        self.sim.access(self, self._all_cells(), "load")
+        out = np.array(self.arr, dtype=dtype, copy=True)
+        return out
+
+    def copy(self):
+        return np.asarray(self)
+
+    def astype(self, dtype, **kw):
+        return np.asarray(self).astype(dtype, **kw)
+
+    def reshape(self, *shape):
+        if len(shape) == 1 and isinstance(shape[0], (tuple, list)):
+            shape = tuple(shape[0])
+        try:
+            v = self.arr.reshape(*shape)
+            if np.shares_memory(v, self.arr) or v.size == 0:
+                return Tracked(self.name, v, self.sim, self._map().reshape(*shape))
+        except (AttributeError, ValueError):
+            pass
+        return np.asarray(self).reshape(*shape)
+
+    def ravel(self):
+        return self.reshape(-1)
+
+    def dot(self, other):
+        return np.asarray(self).dot(np.asarray(other))
+
+    def sum(self, *a, **k):
+        return np.asarray(self).sum(*a, **k)
+
+    @property
+    def real(self):
+        return np.asarray(self).real
+
+    @property
+    def imag(self):
+        return np.asarray(self).imag
+
+    def fill(self, value):
+        self[...] = value
+
+    def __iter__(self):
+        for i in range(len(self.arr)):
+            yield self[i]
+
+
+def _binop(name, reflected=False):
+    import operator as _op
+
+    f = getattr(_op, name)
+
+    def method(self, other):
+        a = np.asarray(self)
+        b = np.asarray(other) if isinstance(other, Tracked) else other
+        return f(b, a) if reflected else f(a, b)
+
+    return method
+
+
+for _nm in ("add", "sub", "mul", "truediv", "floordiv", "mod", "pow", "matmul", "lt", "le", "gt", "ge", "eq", "ne"):
+    setattr(Tracked, "__%s__" % _nm, _binop(_nm))
+for _nm in ("add", "sub", "mul", "truediv", "floordiv", "mod", "pow", "matmul"):
+    setattr(Tracked, "__r%s__" % _nm, _binop(_nm, reflected=True))
+Tracked.__neg__ = lambda self: -np.asarray(self)
+Tracked.__abs__ = lambda self: abs(np.asarray(self))
+Tracked.__hash__ = None
 
 
 class _Abort(BaseException):
